@@ -16,9 +16,10 @@ Inductive val :=
 | VSome (v : val)       (* Optional(Some v) *)
 | VVec (l : list val).
 
-(* what a Rust arm does: a value, an anyhow error (exit 1), a panic (exit 101), or a call into libm
-   that is outside the model (`powf`) *)
-Inductive outcome := Ok (v : val) | Err | Panic | Libm.
+(* what a Rust arm does: a value, an anyhow error (exit 1), a panic (exit 101);
+   LibmPow x y: the value is whatever libm's pow(x, y) returns (`powf`: the model fixes the arguments only);
+   Outside: the value involves Rust's float printing, which is outside the model *)
+Inductive outcome := Ok (v : val) | Err | Panic | LibmPow (x y : f64) | Outside.
 
 (* what the property demands: this value / the program must stop / nothing is claimed *)
 Inductive sres := SVal (v : val) | SFail | SUnspec.
